@@ -166,7 +166,7 @@ Theorem pop_block_spec m base idx size m' p : mem_inv m -> pop_block m base idx 
   exists cs cp b,
     In cs m /\ cs_base cs = base /\ In cp (cs_pages cs) /\ cp_idx cp = idx /\
     p = block_addr cs cp b /\ size <= bsize (cp_page cp) /\ ~ is_live (cp_page cp) b /\
-    mem_inv m' /\
+    b < capacity (cp_page cp) /\ mem_inv m' /\
     (forall x, In x (live_blocks m') <-> x = (p, bsize (cp_page cp), size) \/ In x (live_blocks m)).
 Proof.
   intros Hm. unfold pop_block.
@@ -185,7 +185,7 @@ Proof.
   assert (Eblk : forall i, block_addr cs cp' i = block_addr cs cp i).
   { intros i. unfold block_addr. unfold cp'; cbn [cp_idx cp_page]. rewrite Ebs. reflexivity. }
   exists cs, cp, b. split; [assumption|]. split; [reflexivity|]. split; [assumption|]. split; [reflexivity|].
-  split; [reflexivity|]. split; [assumption|]. split; [assumption|]. split.
+  split; [reflexivity|]. split; [assumption|]. split; [assumption|]. split; [assumption|]. split.
   - apply (put_page_inv m cs cp cp'); try assumption; [reflexivity|].
     unfold page_ok. unfold cp'; cbn [cp_page cp_idx cp_ghost].
     split; [apply (malloc_inv _ _ _ Hpi Em)|]. split; [congruence|]. split; [rewrite Ers, Ebs; exact Hres|].
